@@ -591,15 +591,20 @@ def rule_k(ctx: Ctx, rule: str = 'C02.k') -> None:
             if not (node.kind == 'stmt' and isinstance(node.ast, ast.Assign) and text(node.ast.targets[0]) == 'context.patterns' and text(node.ast.value) in ('self.patterns', '[self.patterns]')):
                 continue
             gs = guards(ctx, f, node)
-            cond = [t for t, lab in gs if lab == 'T' and 'context.patterns is None' in t]
-            if not cond:
-                continue
+            EMPTY_T = ('context.patterns is None', 'not context.patterns', 'len(context.patterns) == 0')     # true edge: the slot is empty
+            EMPTY_F = ('context.patterns is not None', 'context.patterns', 'len(context.patterns) > 0')      # false edge: the slot is empty
+            cond = [t for t, lab in gs if (lab == 'T' and t in EMPTY_T) or (lab == 'F' and t in EMPTY_F)]
             n += 1
+            if not cond:
+                ctx.ob(rule, f'XsdAtomicRestriction.{meth}: the patterns of this step are applied also when an outer restriction of the same union already uses the hand-off slot',
+                       f.loc(node.ast), False, 'the hand-off overwrites the slot unconditionally: the patterns an outer restriction step pushed are lost',
+                       key=f'XsdAtomicRestriction.{meth}|patterns-of-every-step')
+                continue
             # is there anything for the other case (slot taken)?
             other = []
             for m in g.stmt_nodes():
                 gm = guards(ctx, f, m)
-                if any(('context.patterns is None' in t and lab == 'F') or ('context.patterns is not None' in t and lab == 'T') for t, lab in gm):
+                if any((lab == 'F' and t in EMPTY_T) or (lab == 'T' and t in EMPTY_F) for t, lab in gm):
                     if any(text(c.func) == 'self.patterns' for e in m.exprs for c in calls(e)) or \
                             any(isinstance(c.func, ast.Attribute) and text(c.func.value) == 'context.patterns' and c.func.attr in ('append', 'extend', 'add') for e in m.exprs for c in calls(e)) or \
                             (isinstance(m.ast, (ast.Assign, ast.AugAssign)) and 'context.patterns' in text(m.ast)):
